@@ -13,7 +13,7 @@ EXHAUSTIVE = True
 MAXLEN = 200
 BOTH = 64
 RULE = ("vec.pardot cases, the executor re-run under `taskset -c <first k CPUs of the affinity mask>` for every k = 1..N, N = min(16, CPUs "
-        "available at run time; recorded as worker_counts_exercised) (the worker count is num_cpus::get(), observed in-process and compared with k): for every k and every length 0..200 (exhaustive in "
+        "available at run time; recorded as worker_counts_exercised) (the worker count is num_cpus::get(), observed in-process by a probe under the same mask -- the model is run with the observed count, a mask whose probe fails is skipped and recorded as worker_count_probe_failed -- and again in every answer, where the oracle reads it): for every k and every length 0..200 (exhaustive in "
         "(length, k)) a case on arbitrary f64 data and/or one on small-integer data whose partial sums are exact (both for lengths <= 64, "
         "alternating above in the quick tier; both everywhere in the thorough tier), plus seeded "
         "longer lengths (201..1200 quick, ..4000 thorough); every case calls dot_f64 3 times (5 thorough), a share of them under spinning background "
@@ -27,9 +27,9 @@ RULE = ("vec.pardot cases, the executor re-run under `taskset -c <first k CPUs o
         "distinct = distinct executor line x affinity; non-trivial = length >= 1")
 TRUSTED = ["Coq 8.16.1 kernel + vm_compute (primitive floats: bit-exact IEEE binary64)", "Flocq 4 (IEEE754.PrimFloat, BinarySingleNaN) and Coq's FloatAxioms for pardot_exact_float", "Rust executor /verif/harness (kind vec.pardot), `taskset`",
            "python driver: generators, exact Fraction reference, stream comparator (bitwise for this property)",
-           "hand-written Gallina model coq/Model/ParDot.v tied to src/vector/vec_f64.rs:73-109 by bitwise differential execution under every affinity 1..16",
+           "hand-written Gallina model coq/Model/ParDot.v tied to src/vector/vec_f64.rs:73-109 by bitwise differential execution under every affinity 1..N (N = min(16, CPUs available at run time), recorded)",
            "Rust's std::thread::scope borrowing rules (no data race / torn read), num_cpus::get() (follows the affinity mask: observed on every run)"]
-ASSUMPTIONS = ["the worker count is whatever num_cpus::get() returns in the process (1..16 reachable here through the affinity mask; cgroup quotas are not exercised)",
+ASSUMPTIONS = ["the worker count is whatever num_cpus::get() returns in the process (1..N reachable through the affinity mask, N = min(16, CPUs available at run time), recorded in the evidence; cgroup quotas are not exercised)",
                "a value model cannot exhibit a data race: excluded by thread::scope's borrow checking (trusted)",
                "the sampled (length, k, data) triples are where model and code were compared bit for bit; the theorems are about the model"]
 UNPROVED = ["accuracy 'up to reassociation' on arbitrary data is proved in the standard rounding model (pardot_forward_error, pardot_vs_dot_reassociation, "
@@ -53,7 +53,7 @@ MANIFEST = dict(
           "that adds the partial sums in completion order into a shared accumulator is REFUTED for floats with a concrete witness (completion_order_refuted) while "
           "shown exact over rings (shared_exact): the join-in-spawn-order of the source is what makes the float result schedule independent. Forward error of the "
           "chunked sum in the standard rounding model: pardot_forward_error(_tight), pardot_vs_dot_reassociation, sched_forward_error. Tie: the executor is re-run under taskset for every CPU count "
-          "1..16, reports num_cpus::get() in-process, and every result for every length 0..200 (plus longer ones) is compared "
+          "1..N, N = min(16, the CPUs available at run time) (recorded: cpus_available, worker_counts_exercised, worker_counts_not_reachable_here; a mask whose worker-count probe fails is skipped and recorded), reports num_cpus::get() in-process, and every result for every length 0..200 (plus longer ones) is compared "
           "bitwise with vm_compute of the float instance of the same model for that worker count, with the sequential dot, across "
           "repetitions, and (oracle) with an exact rational reference; the same comparison with both operands the same object, after edit histories of "
           "the operands (capacity different from length), on mismatched sizes in both directions, and on structured data (constant, cancelling, one huge entry) "
@@ -109,25 +109,37 @@ CPUS = cpus_available()
 EXERCISED = []
 OBSERVED = {}      # k (CPUs in the mask) -> num_cpus::get() observed by the executor in-process under that mask
 
+PROBE_FAILED = {}  # k -> why the probe under the mask of k CPUs gave no worker count: that k is NOT exercised (recorded in the coverage)
+
 def probe_worker_counts():
     """What num_cpus::get() returns under each affinity mask, observed by the executor itself.  Here it follows the
     mask exactly (OBSERVED[k] == k); under a cgroup CPU quota it may be smaller -- the model is run with the count
-    actually observed, whatever it is."""
+    actually observed, whatever it is.  A mask whose probe fails is never given an assumed count: no case is generated
+    for that k (usable_ks) and the failure is recorded (worker_count_probe_failed)."""
     exe, out = build_harness()
     if exe is None:
         return
     for k in range(1, min(len(CPUS), 16) + 1):
-        try:
-            ans = run_harness(exe, ["p f64 vec.pardot [] [] 1 0"], "C16probe", prefix="taskset -c %s " % ",".join(str(c) for c in CPUS[:k]))
-            OBSERVED[k] = int(ans["p"][0][1:])
-        except Exception:
-            pass
+        if k in OBSERVED: continue
+        for attempt in (1, 2):
+            try:
+                ans = run_harness(exe, ["p f64 vec.pardot [] [] 1 0"], "C16probe", prefix="taskset -c %s " % ",".join(str(c) for c in CPUS[:k]))
+                tok = ans["p"][0]
+                if not (tok.startswith("i") and int(tok[1:]) >= 1): raise ValueError("unexpected probe answer %r" % (ans["p"][:3],))
+                OBSERVED[k] = int(tok[1:]); PROBE_FAILED.pop(k, None)
+                break
+            except Exception as e:
+                PROBE_FAILED[k] = "%s: %s" % (type(e).__name__, str(e)[:200])
+
+def usable_ks():
+    """the mask sizes whose worker count was observed: the only ones cases are generated for"""
+    return [k for k in range(1, min(len(CPUS), 16) + 1) if k in OBSERVED]
 
 def mk(k, v, w, reps, busy, exact, family, seed=None):
     line = "vec.pardot %s %s %d %d" % (tok_vec('f64', v), tok_vec('f64', w), reps, busy)
     # pin to the first k CPUs of the mask actually available (never assume 16, nor that they are numbered 0..)
     meta = {"_env": {"taskset": ",".join(str(c) for c in CPUS[:k])}, "k": k, "v": v, "w": w, "reps": reps, "busy": busy, "exact": exact}
-    meta["t"] = OBSERVED.get(k, k)
+    meta["t"] = OBSERVED[k]          # observed by the probe; callers only pass k from usable_ks()
     if seed is not None:
         meta["seed"] = seed
         tm = "pardot_gen_out %d %d %d %d (%d)%%uint63" % (meta["t"], reps, len(v), 1 if exact else 0, seed)
@@ -140,7 +152,7 @@ def mk_hist(ks, n, seed):
     """one process, the affinity changed between calls: a worker count cached from an earlier call must not be used"""
     v, w = gen_data(1, n, seed)
     line = "vec.pardot_hist %s %s %s" % (tok_vec('f64', v), tok_vec('f64', w), "[" + ",".join(str(k) for k in ks) + "]")
-    ts = [OBSERVED.get(k, k) for k in ks]
+    ts = [OBSERVED[k] for k in ks]
     tm = " ++ ".join("pardot_gen_out %d 1 %d 1 (%d)%%uint63" % (t, n, seed) for t in ts)
     meta = {"hist": list(ks), "v": v, "w": w, "exact": True, "seed": seed, "n": n}
     return Case('f64', line, tm, meta=meta, family="affinity-history", nontrivial=(n >= 1), tol=0.0, exact_bits=True)
@@ -270,8 +282,11 @@ def generate(rng, tier):
     cases = []
     reps = 5 if tier == "thorough" else 3
     probe_worker_counts()
-    ks = list(range(1, min(len(CPUS), 16) + 1))
-    EXERCISED[:] = sorted(set(OBSERVED.get(k, k) for k in ks))
+    ks = usable_ks()                 # a mask whose probe failed is skipped (recorded), never run with an assumed count
+    if PROBE_FAILED:
+        global EXHAUSTIVE
+        EXHAUSTIVE = False           # (length, k) is no longer covered exhaustively: the evidence says so
+    EXERCISED[:] = sorted(set(OBSERVED[k] for k in ks))
     for k in ks:
         g = rng.fork("k%d" % k)
         for n in range(0, MAXLEN + 1):
@@ -307,12 +322,15 @@ def generate(rng, tier):
     if kmax >= 2:
         g = rng.fork("affinity-history")
         for h in range(40 if tier == "thorough" else 12):
-            ks = [1, kmax] if h == 0 else ([kmax, 1, kmax] if h == 1 else [g.range(1, kmax) for _ in range(g.range(2, 5))])
-            cases.append(mk_hist(ks, g.range(0, 64) if h > 1 else 37, g.next() & M63))
+            hs = [1, kmax] if h == 0 else ([kmax, 1, kmax] if h == 1 else [g.range(1, kmax) for _ in range(g.range(2, 5))])
+            n = g.range(0, 64) if h > 1 else 37; sd = g.next() & M63
+            if all(k in OBSERVED for k in hs):
+                cases.append(mk_hist(hs, n, sd))
     return cases
 
 def extra_coverage():
     return {"cpus_available": len(CPUS), "num_cpus_get_observed_per_mask_size": dict(OBSERVED),
+            "worker_count_probe_failed": dict(PROBE_FAILED), "mask_sizes_skipped_probe_failed": sorted(PROBE_FAILED),
             "num_cpus_follows_affinity_mask": all(OBSERVED.get(k) == k for k in OBSERVED), "worker_counts_exercised": list(EXERCISED),
             "worker_counts_not_reachable_here": [k for k in range(1, 17) if k not in EXERCISED]}
 
@@ -320,9 +338,9 @@ def case_from_json(j):
     m = j["meta"]
     if not OBSERVED: probe_worker_counts()
     if "hist" in m:
-        return mk_hist(m["hist"], m["n"], m["seed"]) if max(m["hist"]) <= len(CPUS) else None
-    if m["k"] > len(CPUS):
-        return None          # this affinity cannot be set on the present machine
+        return mk_hist(m["hist"], m["n"], m["seed"]) if all(k in OBSERVED for k in m["hist"]) else None
+    if m["k"] not in OBSERVED:
+        return None          # this affinity cannot be set on the present machine, or its worker count could not be observed
     F = lambda xs: [float(x) for x in xs]
     def ops_of(os_):
         out = []
@@ -374,6 +392,10 @@ def oracle(case, items):
     if any(it[0] == 'P' for it in items):
         return "dot_f64 panicked (%s) on vectors of length %d with %s workers" % (items[-1][1], len(v), items[0][1] if items else "?")
     if len(items) != reps + 2:
+        return "malformed answer: %r" % (items[:6],)
+    # the worker count is the one the executor observed in-process for THIS call (first item of the answer), never the
+    # mask size k nor the probe's value (the model term was built with the probe's value; the tie compares the two)
+    if items[0][0] != 'i' or not isinstance(items[0][1], int) or items[0][1] < 1 or any(it[0] != 'f' for it in items[1:]):
         return "malformed answer: %r" % (items[:6],)
     t = items[0][1]
     pars = [it[1] for it in items[1:1 + reps]]
